@@ -607,18 +607,50 @@ class Executor(ExprMixin, CallMixin):
                 if isinstance(v, VRef):
                     refs.add(v.ref)
 
+        def arg_ref(e):
+            # `f(obj.field)` passes the *value* of the field: the callee can mutate the object that value
+            # refers to (if any), never rebind obj.field itself
+            e0 = e
+            while isinstance(e, ast.Subscript):      # obj.field[i] / obj.field[a:b]: derived from the field's value
+                e = e.value
+            if isinstance(e, ast.Attribute) and isinstance(e.value, ast.Name):
+                v = st.lookup(e.value.id)
+                if isinstance(v, VRef):
+                    o = st.heap.get(v.ref)
+                    if o is not None and o.kind == "obj" and isinstance(o.data, dict) and e.attr in o.data:
+                        fv = o.data[e.attr]
+                        if isinstance(fv, VRef):
+                            refs.add(fv.ref)
+                        return
+            name_ref(e0)
+
         for n in stmts:
             for sub in ast.walk(n):
                 if isinstance(sub, (ast.Subscript, ast.Attribute)) and isinstance(sub.ctx, ast.Store):
                     name_ref(sub.value)
                 elif isinstance(sub, ast.Call):
                     if isinstance(sub.func, ast.Attribute):
-                        name_ref(sub.func.value)
-                    for a in sub.args:
-                        name_ref(a)
+                        if not self._contracted_pure_method(sub.func, st):
+                            arg_ref(sub.func.value)      # `obj.field.m()` mutates the field's object, not obj
+                    for a in list(sub.args) + [k.value for k in sub.keywords]:
+                        arg_ref(a)
                 elif isinstance(sub, ast.AugAssign):
                     name_ref(sub.target)
         return refs
+
+    def _contracted_pure_method(self, func, st) -> bool:
+        """`obj.m(...)` where m is a repo method under a contract that does not list `self` in `modifies`:
+        the call is replaced by the contract, which leaves the receiver unchanged."""
+        if not isinstance(func.value, ast.Name):
+            return False
+        v = st.lookup(func.value.id)
+        if not isinstance(v, VRef):
+            return False
+        o = st.heap.get(v.ref)
+        if o is None or o.kind != "obj" or not o.cls:
+            return False
+        c = self.reg.get(f"{self.module.rel}::{o.cls}.{func.attr}")
+        return c is not None and not c.inline and "self" not in c.modifies
 
     def havoc_like(self, st: State, v: V, name: str) -> V:
         """Fresh symbolic value of the same kind."""
@@ -659,6 +691,11 @@ class Executor(ExprMixin, CallMixin):
                 w.data = [self.havoc_like(st, x, f"h{ref}") for x in o.data]
             else:
                 st.heap[ref] = HeapObj("unk", None, o.cls, False)
+        for g in (spec.havoc if spec is not None else ()):
+            if callable(g):
+                g(self, st)
+            elif g in st.ghost and z3.is_expr(st.ghost[g]):
+                st.ghost[g] = z3.Const(fresh_name(f"ghost!{g}"), st.ghost[g].sort())
 
     def s_For(self, s, st):
         outs = []
@@ -729,7 +766,7 @@ class Executor(ExprMixin, CallMixin):
         inv = spec.inv if spec is not None else None
         invp = spec.inv_point if spec is not None else None
         if inv is not None:
-            g0 = inv(LoopCtx(self, st, z3.IntVal(0), entry, it))
+            g0 = inv(LoopCtx(self, st, z3.IntVal(0), entry, it, {"phase": "init"}))
             self.add_vc("inv-init", label, st.pc, g0, loc=self.loc(s))
         if invp is not None:
             j0 = z3.Int(fresh_name("j0"))
@@ -743,7 +780,7 @@ class Executor(ExprMixin, CallMixin):
         after.pc = list(st.pc)
         # `after` shares the havocked variables but not the i-range assumption
         if inv is not None:
-            body_st.assume(self._b(inv(LoopCtx(self, body_st, i, entry, it))))
+            body_st.assume(self._b(inv(LoopCtx(self, body_st, i, entry, it, {"phase": "assume"}))))
         head_st = body_st.fork() if invp is not None else None       # the state at the loop head of this iteration
         if invp is not None:
             jq = z3.Int(fresh_name("jq"))
@@ -753,7 +790,7 @@ class Executor(ExprMixin, CallMixin):
             for o in self.exec_block(s.body, s3):
                 if o.kind in ("fall", "continue"):
                     if inv is not None:
-                        g = inv(LoopCtx(self, o.st, i + 1, entry, it))
+                        g = inv(LoopCtx(self, o.st, i + 1, entry, it, {"phase": "preserve"}))
                         self.add_vc("inv-preserve", label, o.st.pc, g, loc=self.loc(s))
                     if invp is not None:
                         j0 = z3.Int(fresh_name("j0"))
@@ -768,7 +805,7 @@ class Executor(ExprMixin, CallMixin):
         # exit: havocked state with inv(n)
         if inv is not None:
             after.assume(n >= 0)
-            after.assume(self._b(inv(LoopCtx(self, after, n, entry, it))))
+            after.assume(self._b(inv(LoopCtx(self, after, n, entry, it, {"phase": "exit"}))))
         if invp is not None:
             jq = z3.Int(fresh_name("jq"))
             after.assume(z3.ForAll([jq], self._b(invp(LoopCtx(self, after, n, entry, it), jq))))
